@@ -5,6 +5,7 @@ import (
 	"go/token"
 	"go/types"
 	"os"
+	"regexp"
 	"sort"
 	"strings"
 
@@ -124,6 +125,10 @@ type Candidate struct {
 	Desc  string
 	Eval  func(fr *Frame, st *State) *Term
 	Alive bool
+	// a user invariant whose missing local was replaced by another local of the function: when it survives Houdini
+	// it stands in for the original (same label)
+	Subst *Clause
+	Orig  *Clause
 }
 
 type candCheck struct {
@@ -444,6 +449,9 @@ func (X *Exec) usableLoopSpec(fr *Frame, li *loopInfo, ls *LoopSpec) *LoopSpec {
 					if r := recover(); r != nil {
 						if se, isSE := r.(specErr); isSE && strings.Contains(se.msg, "unknown identifier") {
 							ok = false
+							if m := regexp.MustCompile(`unknown identifier "([^"]+)"`).FindStringSubmatch(se.msg); m != nil {
+								out.Dropped = append(out.Dropped, droppedInv{Clause: inv, Name: m[1]})
+							}
 							X.E.warn("%s: loop %d invariant dropped (%s): %s", X.E.P.Keys[fr.Fn], li.Ordinal, se.msg, inv.Src)
 							return
 						}
@@ -485,6 +493,12 @@ func (X *Exec) enterLoop(fr *Frame, li *loopInfo, st *State) *State {
 	if _, ok := X.cands[key]; !ok && !ls.NoHoudini {
 		X.cands[key] = X.genCandidates(fr, li, st)
 	}
+	if !X.probe {
+		for i, c := range X.substitutes(key) {
+			t := c.Eval(fr, st)
+			X.oblige(st, "inv.entry", c.Orig.Label, fmt.Sprintf("loop %d of %s invariant (local renamed, #%d) holds on entry: %s", li.Ordinal, fnKey, i, c.Subst.Src), li.Head.Instrs[0].Pos(), t)
+		}
+	}
 	if X.probe {
 		for _, c := range X.cands[key] {
 			if c.Alive {
@@ -522,6 +536,11 @@ func (X *Exec) loopStep(fr *Frame, li *loopInfo, st *State) {
 			}
 		}
 	}
+	if !X.probe {
+		for i, c := range X.substitutes(key) {
+			X.oblige(st, "inv.step", c.Orig.Label, fmt.Sprintf("loop %d of %s invariant (local renamed, #%d) is preserved: %s", li.Ordinal, fnKey, i, c.Subst.Src), li.Head.Instrs[0].Pos(), c.Eval(fr, st))
+		}
+	}
 	for i, inv := range ls.Invariants {
 		t := X.evalClause(fr, st, inv, X.loopVars(fr, li, st))
 		X.oblige(st, "inv.step", inv.Label, fmt.Sprintf("loop %d of %s invariant #%d is preserved: %s", li.Ordinal, fnKey, i, inv.Src), li.Head.Instrs[0].Pos(), t)
@@ -532,6 +551,7 @@ func (X *Exec) loopStep(fr *Frame, li *loopInfo, st *State) {
 func (X *Exec) genCandidates(fr *Frame, li *loopInfo, entry *State) []*Candidate {
 	ts := X.E.TS
 	var out []*Candidate
+	out = append(out, X.renameCandidates(fr, li, entry)...)
 	ms := X.modifiedIn(fr, li, entry)
 	isIntCell := func(a *ssa.Alloc) bool {
 		_, _, ok := intRange(a.Type().(*types.Pointer).Elem())
@@ -888,4 +908,99 @@ func valueText(v ssa.Value) string {
 		s = s[:80]
 	}
 	return s
+}
+
+// substitutes: per dropped user invariant of this loop, the first renamed variant that survived Houdini.
+func (X *Exec) substitutes(key string) []*Candidate {
+	var out []*Candidate
+	seen := map[*Clause]bool{}
+	for _, c := range X.cands[key] {
+		if c.Subst != nil && c.Alive && !seen[c.Orig] {
+			seen[c.Orig] = true
+			out = append(out, c)
+		}
+	}
+	return out
+}
+
+// renameCandidates: a user invariant that names a local the function no longer has is re-tried with every other
+// named local of the function in that role; the variants are Houdini candidates (kept only if they hold on entry and
+// are preserved), so a renamed local does not turn into an alarm and nothing unproved is assumed.
+func (X *Exec) renameCandidates(fr *Frame, li *loopInfo, entry *State) []*Candidate {
+	key := X.E.P.Keys[fr.Fn]
+	fs := X.E.Specs.Funcs[key]
+	if fs == nil || fs.Loops[li.Ordinal] == nil {
+		return nil
+	}
+	X.loopProbeState = entry
+	ls := X.usableLoopSpec(fr, li, fs.Loops[li.Ordinal])
+	X.loopProbeState = nil
+	if len(ls.Dropped) == 0 {
+		return nil
+	}
+	var names []string
+	seen := map[string]bool{}
+	add := func(n string) {
+		if n != "" && !seen[n] && !strings.HasPrefix(n, "range") && !strings.Contains(n, "$") && !strings.Contains(n, ".") {
+			seen[n] = true
+			names = append(names, n)
+		}
+	}
+	for a := range fr.Cells {
+		add(a.Comment)
+	}
+	for v := range fr.Regs {
+		if a, ok := v.(*ssa.Alloc); ok && a.Heap {
+			add(a.Comment)
+		}
+	}
+	sort.Strings(names)
+	var out []*Candidate
+	for _, d := range ls.Dropped {
+		for _, alt := range names {
+			if alt == d.Name {
+				continue
+			}
+			cl := *d.Clause
+			cl.Expr = renameIdent(d.Clause.Expr, d.Name, alt)
+			cl.Src = d.Clause.Src + "   [with " + d.Name + " := " + alt + "]"
+			cc := &cl
+			ok := true
+			func() {
+				defer func() {
+					if r := recover(); r != nil {
+						if _, isSE := r.(specErr); isSE {
+							ok = false
+							return
+						}
+						panic(r)
+					}
+				}()
+				X.evalClause(fr, entry.Clone(), cc, X.loopVars(fr, li, entry))
+			}()
+			if !ok {
+				continue
+			}
+			out = append(out, &Candidate{Desc: "renamed local: " + cl.Src, Alive: true, Subst: cc, Orig: d.Clause, Eval: func(fr *Frame, st *State) *Term {
+				var t *Term
+				func() {
+					defer func() {
+						if r := recover(); r != nil {
+							if _, isSE := r.(specErr); isSE {
+								t = nil
+								return
+							}
+							panic(r)
+						}
+					}()
+					t = fr.Exec.evalClause(fr, st, cc, fr.Exec.loopVars(fr, li, st))
+				}()
+				if t == nil {
+					return fr.Exec.E.TS.False()
+				}
+				return t
+			}})
+		}
+	}
+	return out
 }
